@@ -438,6 +438,9 @@ func (cs *Contracts) parseFile(pkg, file, data string) {
 	var lines []ln
 	for i, raw := range strings.Split(data, "\n") {
 		t := strings.TrimSpace(raw)
+		if strings.HasPrefix(t, "// @") { // gofmt rewrites //@ to // @ inside doc comments
+			t = "//@" + t[4:]
+		}
 		if !strings.HasPrefix(t, "//@") {
 			continue
 		}
